@@ -202,3 +202,5 @@ def run(ctx):
         ctx.cov["tour_histories_total"] = len(hists)
         ctx.cov["tour_histories_replayed"] = len(sel)
         ctx.validate("QS", "QsTrace", "QsTrace.cfg", tp2, "qs TLC schedules", keyfn=key)
+    from props import witness
+    witness.tsan_witness(ctx)
